@@ -17,13 +17,13 @@ CLAIMS = {
               'populations, all registers); members of a group are exactly the lights reporting it; operands joined by `and` '
               'share one delay. Forward simulation (Lang/Simulation.v, Simulation2.v, Simulation3.v, SimulationTop.v) is proved for every program made of register '
               'settings, unit switches, assignments, print / println, wait, set / on / off of all lights or lists of lights, groups and '
-              'locations named by strings, macros or variables, if / else, begin-end blocks, `repeat while`, counted `repeat n`, `repeat with v from a to b`, `repeat n with v from a to b`, `repeat n with v cycle`, `repeat all / group / location as x [with ...]`, `repeat in ... and ... as x [with ...]` (bodies without return) and endless `repeat` loops, `break`, routine definitions at the top level, calls `f a b ...` of routines (arguments ordinary values; routines may call each other and themselves, to any depth) and `return`, nested to any depth -- values any ordinary rvalue or call-free numeric expression of any size -- and every population: WHENEVER the reference '
+              'locations named by strings, macros or variables, if / else, begin-end blocks, `repeat while`, counted `repeat n`, `repeat with v from a to b`, `repeat n with v from a to b`, `repeat n with v cycle`, `repeat all / group / location as x [with ...]`, `repeat in ... and ... as x [with ...]` and endless `repeat` loops, `break`, routine definitions at the top level, calls `f a b ...` of routines (arguments ordinary values; routines may call each other and themselves, to any depth) and `return`, nested to any depth -- values any ordinary rvalue or call-free numeric expression of any size -- and every population: WHENEVER the reference '
               'semantics runs the source to its end with events evs, the code of the compiler model, loaded and run on the machine model '
               'from the initial state, finishes with exactly evs (and statement by statement for code anywhere in an image, inside any enclosing loops). For '
               'calls inside expressions, zones and matrix blocks the agreement of reference semantics, compiler, loader and machine models with each '
               'other and with the implementation is established per run by the oracle and correspondence comparisons, i.e. by testing, over '
               '~400 (quick) / ~6000 (thorough) scripts.'),
-        note=COMMON_NOTE + 'Partial: the simulation theorem covers programs with if / else, `repeat while`, `repeat n`, endless `repeat`, the three loop forms with an index variable, the loops over all lights / groups / locations, `break`, routines (recursive ones too) called as statements and `return` (no calls inside expressions, no return out of a loop over lights) only; arithmetic outside the modelled range (libm, rgb, ints beyond 2^53 with floats) is skipped and counted; device layer = repository fakes.',
+        note=COMMON_NOTE + 'Partial: the simulation theorem covers programs with if / else, `repeat while`, `repeat n`, endless `repeat`, the three loop forms with an index variable, the loops over all lights / groups / locations, `break`, routines (recursive ones too) called as statements and `return` (no calls inside expressions) only; arithmetic outside the modelled range (libm, rgb, ints beyond 2^53 with floats) is skipped and counted; device layer = repository fakes.',
         technique='Coq reference semantics + machine/compiler models; lemmas by induction; oracle and correspondence by vm_compute evaluation of generated cases',
         design='DESIGN.md 7 C01'),
     'C05': dict(
